@@ -429,11 +429,16 @@ async fn same_answers(cx: &mut Cx, inst: usize, out: &mut Out) {
 // (a2) C09 / C12: distinct long keys that share a long prefix
 // ----------------------------------------------------------------------------------------
 async fn key_families(cx: &mut Cx, inst: usize, out: &mut Out) {
-    for round in 0..2usize {
-        let k = inst * 2 + round;
+    for round in 0..3usize {
+        let k = inst * 2 + round.min(1);
         let prefix = crate::cmd::FAMILY_PREFIXES[k % 5];
         let max_len = if k % 5 >= 3 { 60_000 } else { 6_000 };
-        let fam = crate::cmd::prefix_family(&mut cx.rng, &format!("bf{inst}_{round}_"), prefix, k % 2 == 1, max_len);
+        // third pass: near-identical SHORT keys (trailing line break / blank / NUL, case, Unicode composition)
+        let fam = if round == 2 {
+            crate::cmd::near_family(&mut cx.rng, &format!("bn{inst}_"))
+        } else {
+            crate::cmd::prefix_family(&mut cx.rng, &format!("bf{inst}_{round}_"), prefix, k % 2 == 1, max_len)
+        };
         let b = cx.rng.range(1, 3);
         let start = cx.rng.below(3) as usize;
         let from = cx.log.len();
@@ -465,6 +470,10 @@ async fn key_families(cx: &mut Cx, inst: usize, out: &mut Out) {
             cx.tally.account(*proto, a, *st);
             if let WireAns::Ok(true, ..) = a {
                 admitted += 1;
+            }
+            if let WireAns::Ok(false, ..) = a {
+                // (a short key of a near-identical family is one the denied-keys report tracks)
+                *cx.denied_keys.entry(key.clone()).or_insert(0) += 1;
             }
         }
         cx.log.push(format!("{nreq} simultaneous unit requests on key 4 ({} bytes): {}", key.len(), answers.iter().map(|x| format!("{:?}:{}", x.0, x.1.show())).collect::<Vec<_>>().join(" ")));
